@@ -38,7 +38,15 @@ impl RngCore for Fixed {
     }
     fn next_u64(&mut self) -> u64 {
         self.used += 1;
-        self.word
+        if self.used == 1 {
+            return self.word;
+        }
+        // a sampler that rejects a word and draws again must not see the same word for ever: the following words are a
+        // fixed pseudo-random function of the first one (the code under test consumes exactly one word per draw today)
+        let mut z = self.word.wrapping_add(0x9E37_79B9_7F4A_7C15u64.wrapping_mul(self.used as u64));
+        z = (z ^ (z >> 30)).wrapping_mul(0xBF58_476D_1CE4_E5B9);
+        z = (z ^ (z >> 27)).wrapping_mul(0x94D0_49BB_1331_11EB);
+        z ^ (z >> 31)
     }
     fn fill_bytes(&mut self, dest: &mut [u8]) {
         for chunk in dest.chunks_mut(8) {
